@@ -486,6 +486,34 @@ func (f *Fault) corrupt(v, other []byte) []byte {
 			z[len(z)-1] = 1
 		}
 		return z
+	case "zero-head": // the leading Bit%len+1 bytes replaced by zeros (the tail stays correct)
+		o := append([]byte{}, v...)
+		k := f.Bit%len(o) + 1
+		changed := false
+		for i := 0; i < k; i++ {
+			if o[i] != 0 {
+				changed = true
+			}
+			o[i] = 0
+		}
+		if !changed {
+			o[k%len(o)] ^= 1
+		}
+		return o
+	case "zero-tail":
+		o := append([]byte{}, v...)
+		k := f.Bit%len(o) + 1
+		changed := false
+		for i := len(o) - k; i < len(o); i++ {
+			if o[i] != 0 {
+				changed = true
+			}
+			o[i] = 0
+		}
+		if !changed {
+			o[0] ^= 1
+		}
+		return o
 	}
 	return v
 }
@@ -710,6 +738,8 @@ func (c *Conn) plain(f []byte) error {
 					hash = ref.SHA1(c.hs.NewNonce, []byte{2}, aux)[4:20]
 				case "hash3":
 					hash = ref.SHA1(c.hs.NewNonce, []byte{3}, aux)[4:20]
+				case "zero", "other", "zero-head", "zero-tail", "random":
+					hash = flt.corrupt(h1, c.hs.Nonce)
 				case "random-hash":
 					hash = flt.corrupt(h1, c.hs.Nonce)
 					if flt.Kind != "random" {
